@@ -9,6 +9,7 @@ import Djc.Proofs.LeafSpec
 import Djc.Proofs.Slotty
 import Djc.Proofs.Filled
 import Djc.Spec.Render
+import Djc.Proofs.Tree
 namespace Djc.Props.C03
 open Djc.Tpl Djc.Render Djc.Proofs.Render
 
@@ -392,5 +393,47 @@ def C03_full : Prop :=
       | _ => False) →
     ((renderNodes env fuel page (rootCtx vars)).run.run {}).1 =
       ((renderNodes env fuel page (rootCtx vars')).run.run {}).1
+
+/-! ### fill content in trees of components: lexical scope in isolated mode, the slot's context in django mode -/
+
+/-- **What fill content sees, in every instance of a tree, at any depth.**  In a world a render of the tree fragment can
+reach (`Djc.Proofs.Tree.WInv`), when `SlotNode.render` renders a fill `f` (the fill of that name held by the instance
+the context names — `Djc.Props.C01.slot_renders_its_fill_else_its_default_in_trees`), the context `c3` it renders
+`f.nodes` in resolves
+
+* the alias the fill asked for (`data="d"`) to the slot tag's keyword arguments, evaluated at the slot tag;
+* every other name a template can use (not internal, not `component_vars`) that the variables captured between the
+  component tag and the fill (`f.extra`: enclosing loops) do not bind:
+  - **isolated mode**: exactly as `outer_context` does — the snapshot of the Context taken at the `{% component %}` tag.
+    Nothing of the component's own data, nothing of the slot's surroundings: the fill is a lexical closure;
+  - **django mode**: exactly as the Context at the slot tag does (the component's data over the outer variables). -/
+theorem fill_content_scope_in_trees (env : Env) (fuel : Nat) (nameE : Expr) (isRequired : Bool)
+    (data : List (Str × Expr)) (body : List Node) (ctx : Ctx) (w : World)
+    (hc : Djc.Proofs.Plain.ctxFree ctx = true) (hw : Djc.Proofs.Tree.WInv w)
+    (cid : Nat) (cc : CompCtx) (f : FillFn)
+    (hcid : ctxGet ctx compKey = some (.compRef cid)) (hcc : alGet cid w.ctxCache = some cc)
+    (hf : sGet (slotNameOf (evalExpr ctx nameE)) cc.fills = some f)
+    (hok : ∀ e, (renderSlot env (fuel + 1) nameE false isRequired data body ctx).run.run w ≠ (.error e, w))
+    (hne : (renderSlot env (fuel + 1) nameE false isRequired data body ctx).run.run w ≠ (.ok [], w)) :
+    ∃ c3, (renderSlot env (fuel + 1) nameE false isRequired data body ctx).run.run w = (renderNodes env fuel f.nodes c3).run.run w ∧
+      (∀ d, f.dataVar = some d → ctxGet c3 d = some (.dict (evalKwargs ctx data))) ∧
+      (∀ k, Djc.Proofs.Calm.internal k = false → k ≠ compVarsKey → f.dataVar ≠ some k → lookupL k f.extra = none →
+        ctxGet c3 k = ctxGet (if env.isolated then cc.outer.getD [] else ctx) k) := by
+  rcases Djc.Proofs.Tree.slot_unfolds env fuel nameE isRequired data body ctx w hc hw with ⟨e, he⟩ | he | ⟨cid', cc', c3, h1, h2, _, hcase⟩
+  · exact absurd he (hok e)
+  · exact absurd he hne
+  · rw [hcid] at h1
+    injection h1 with h1
+    injection h1 with h1
+    subst h1
+    rw [hcc] at h2
+    injection h2 with h2
+    subst h2
+    rcases hcase with ⟨hnone, _, _⟩ | ⟨f', hf', ha, hl, hr⟩
+    · rw [hf] at hnone; cases hnone
+    · rw [hf] at hf'
+      injection hf' with hf'
+      subst hf'
+      exact ⟨c3, hr, ha, hl⟩
 
 end Djc.Props.C03
